@@ -50,8 +50,11 @@ def make_env(nbars, L, d, space, extras, late=False):
         sp = BoxPortfolio(contracts, -1.0, 1.0)
     else:
         sp = DiscretePortfolio(contracts, DISC_ALLOC[space])
+    if late == "shared":
+        # another environment with a DIFFERENT latency was built on the same transmitter first (e.g. a zero-latency baseline)
+        TradingEnv(BoxPortfolio(contracts, -1.0, 1.0), transmitter=tr, latency=0 if L else 1)
     env = TradingEnv(sp, transmitter=tr, state=rec, latency=L, steps_delay=d, initial_cash=65536.0)
-    if late:
+    if late is True:
         # price-free events handed to the transmitter AFTER the environment was built (public API); whether they are
         # delivered is not C08's subject, but the executions must still follow the configured latency
         tr.add_events([Custom(G[1] + timedelta(seconds=1), 0), Custom(G[2] + timedelta(seconds=L + 1), 1)])
@@ -160,6 +163,12 @@ def units(tier):
         for extras in [[]] + [[i] for i in range(npos)]:
             for d, space in ((0, "box"), (1, "disc1")):
                 out.append((nbars, L, d, space, extras, True))
+    # a transmitter shared with an environment of another latency built before
+    for L in (0, 30, 4.1):
+        npos = len(extra_positions(grid(nbars), L))
+        for extras in [[]] + [[i] for i in range(npos)]:
+            for d, space in ((0, "box"), (1, "disc1")):
+                out.append((nbars, L, d, space, extras, "shared"))
     # long episodes: the delay queue must not wrap, drop or repeat decisions after many steps
     for d, space in ((3, "box"), (2, "disc1")) if tier == "quick" else ((0, "box"), (1, "disc1"), (3, "box"), (4, "disc1"), (5, "box")):
         out.append((8 if tier == "quick" else 9, 30, d, space, []))
@@ -216,7 +225,7 @@ def run(tier, **kw):
     rep.set("rule", "one evaluation = one complete episode; enumerated: 5-bar stream (2 contracts, every bar a distinct price, spread 2) x latency "
                     "{0, 30s, 4.1s, 8.2s} x every subset of <= 1 (quick) / <= 2 (thorough) extra quotes over {t+1s, t+L, t+L+0.4s, t'-1s} of every consecutive "
                     "pair x delay {0,1,2,3} x {Box, Discrete with zero first allocation, Discrete with non-zero first allocation, Discrete whose flat allocation is not action 0} x all 3^4 "
-                    "action sequences over 3 pairwise-distinct actions, plus the latency > 0 configurations with price-free events added to the transmitter after the environment was built (same environment reused across sequences via reset); non-trivial = "
+                    "action sequences over 3 pairwise-distinct actions, plus the latency > 0 configurations with price-free events added to the transmitter after the environment was built, and configurations whose transmitter was first used to build an environment with another latency (same environment reused across sequences via reset); non-trivial = "
                     "distinct (allocations executed, trade prices) outcome with delay > 0 or an extra quote")
     rep.set("samples", [{"nbars": 5, "L": 30, "d": 2, "space": "disc1", "extras": [1], "seq": [0, 2, 1, 1]}])
     rep.assumptions = ["with delay > 0 the null action belongs to the space (Box bounds include 0)",
